@@ -35,6 +35,7 @@ from typing import Any, Callable, Dict, Iterable, List, Optional, Tuple
 VERIF = os.path.dirname(os.path.dirname(os.path.abspath(__file__)))
 REPO = os.environ.get("SYNKIT_REPO", "/repo")
 NPROC = int(os.environ.get("VERIF_NPROC", "16"))
+MAX_FAILING_CASES = 400  # per worker shard and sub-check
 MAX_DETAIL = 4  # violations kept with full detail per sub-check/tag and worker
 
 
@@ -209,6 +210,7 @@ def _worker(args) -> Acc:
         sub.setup()
     n_detail: Dict[str, int] = {}
     n_samples = 0
+    n_failing = 0
     stream = ((i, c) for i, c in enumerate(sub.gen(_TIER, _SEED)) if i % nshards == shard)
     if os.environ.get("VERIF_ORDER") == "reversed":
         # order seam: the same cases, last first (state left behind by earlier cases then meets other successors)
@@ -224,6 +226,12 @@ def _worker(args) -> Acc:
             acc.extra.setdefault("first_traceback", tb)
         key = sub.key(case)
         acc.add_case(sub.name, key, case, out, n_detail)
+        if any(not f.key_class for f in out.fails):
+            n_failing += 1
+            if n_failing >= MAX_FAILING_CASES:
+                # a broken tree can make every case slow; the verdict is already decided
+                acc.caps.append(f"{sub.name}: shard {shard} stopped after {n_failing} violating cases")
+                break
         if n_samples < 2 and shard == 0 and not out.skipped:
             acc.samples.append({"sub": sub.name, "key": key, "case": _clip(case), "outcome": out.outcome})
             n_samples += 1
